@@ -490,3 +490,31 @@ def check_mt(ctx, F, kind, ev_fid, rule):
                                 else "does not simply forward (manager, edge, args) to the sequential eval_edge"))
         n += 1
     return n
+
+
+def check_mt_delegations(ctx, F, rule="E-WRAP.delegate"):
+    """The multi-threaded function types implement the non-recursive operations (constructors, eval, sat_count,
+    pick_cube*) by forwarding to the sequential type: a method whose body is a single call of a trait item on another
+    type must call the item of its own name with its own parameters in order."""
+    n = 0
+    for fid, h in sorted(F.hir.items()):
+        if not (fid.startswith("oxidd_rules_") and "::mt::" in fid and "{impl#" in fid):
+            continue
+        body = h.get("body") or {}
+        e = body.get("e") if body.get("k") == "block" and not body.get("s") else None
+        if not (e and e.get("k") == "call" and e["f"].get("k") == "path" and e["f"].get("item") and e["f"].get("trait")):
+            continue
+        ga = e["f"].get("ga") or []
+        if not (ga and isinstance(ga[0], str) and "::" in ga[0] and not ga[0].startswith("Self")):
+            continue
+        own = fid.rsplit("::", 1)[-1]
+        names = [p.get("n") for p in h["params"]]
+        an = [a.get("n") if a.get("k") == "path" and a.get("res") == "local" else None for a in e["a"]]
+        ok = e["f"]["item"] == own and an == names
+        n += 1
+        ctx.ob(rule, "%s:%s" % (rule, F.nice(fid)), ok,
+               "%s (%s): %s" % (F.nice(fid), F.where(fid),
+                                "forwards to %s::%s with its parameters in order" % (ga[0].split("<")[0].rsplit("::", 1)[-1], own) if ok else
+                                "forwards to `%s` with arguments %r; expected `%s` with its own parameters %r in order"
+                                % (e["f"]["item"], an, own, names)))
+    return n
